@@ -55,13 +55,15 @@ func VerifHarness_Step(lo, hi, fork uint64) {
 	evm.Context.Random = &rnd
 	evm.Context.GetHash = func(n uint64) common.Hash { return verifUF32("blockhash", common.BigToHash(new(big.Int).SetUint64(n)).Bytes()) }
 	evm.TxContext.GasPrice = big.NewInt(7)
+	verifInstallHost(nil, []byte{1}, common.Address{2})
 	rec := &verifRecorder{}
-	if verifBool("debug") {
+	lite := verifParam("lite") == 1
+	if !lite && verifBool("debug") {
 		evm.Config.Tracer = &verifLogger{rec}
 	}
 	depth0 := int(verifParam("depth"))
 	evm.depth = depth0
-	ro0 := verifBool("readonly.outer")
+	ro0 := !lite && verifBool("readonly.outer")
 	env.interp.readOnly = ro0
 	evm.tracer.SaveCall(common.Address{}, nil, nil, uint256.NewInt(0), uint256.NewInt(0))
 	cursor0 := evm.tracer.callTree.current
@@ -78,10 +80,18 @@ func VerifHarness_Step(lo, hi, fork uint64) {
 	for i := uint64(0); i < need+extra; i++ {
 		words = append(words, verifU256("stack"))
 	}
+	if op == CALL || op == CALLCODE || op == DELEGATECALL || op == STATICCALL {
+		// precompile targets have their own harnesses (PrecompileVia_*): keep the target an ordinary account
+		target := &words[len(words)-2]
+		verifAssume((target[2]>>24)&0xff != 0)
+	}
 	verifStackHook = func() *Stack { return &Stack{data: words} }
 	// memory: 0..3 words of arbitrary content, fee bookkeeping consistent with its size
 	mw := verifU64("memwords")
 	verifAssume(mw <= 3)
+	if lite {
+		verifAssume(mw <= 1)
+	}
 	memBytes := verifBytes("mem", mw*32, 96)
 	verifMemoryHook = func() *Memory { return &Memory{store: memBytes, lastGasCost: verifMemCost(mw * 32)} }
 
@@ -91,8 +101,9 @@ func VerifHarness_Step(lo, hi, fork uint64) {
 	var code []byte
 	switch {
 	case op >= PUSH1 && op <= PUSH32:
+		// the opcode followed by at most its immediate bytes, so that execution ends after the push
 		n := verifU64("codelen")
-		verifAssume(n >= 1 && n <= 34)
+		verifAssume(n >= 1 && n <= uint64(op-PUSH1)+2)
 		code = verifBytes("code", n, 34)
 	case op == JUMP || op == JUMPI:
 		code = []byte{byte(op), byte(JUMPDEST)}
@@ -121,6 +132,19 @@ func VerifHarness_Step(lo, hi, fork uint64) {
 		verifAssume(rl <= 40)
 		return verifBytes("callee.ret", rl, 40), verifErrKind(k)
 	}
+	if verifParam("cutframes") == 1 {
+		// the frame routines have their own harnesses; here only the handler's glue is wanted
+		verifFrameHook = func(kind OpCode, caller ContractRef, addr common.Address, in []byte, g uint64, value *big.Int) ([]byte, common.Address, uint64, error) {
+			nested++
+			left := verifU64("frame.left")
+			verifAssume(left <= g)
+			k := verifU64("frame.err")
+			verifAssume(k <= 2)
+			rl := verifU64("frame.retlen")
+			verifAssume(rl <= 40)
+			return verifBytes("frame.ret", rl, 40), verifAddr("frame.addr"), left, verifErrKind(k)
+		}
+	}
 	alloc0 := verifWorkAlloc()
 
 	ret, err := env.interp.Run(verifCtx, contract, input, verifBool("readonly"))
@@ -131,14 +155,20 @@ func VerifHarness_Step(lo, hi, fork uint64) {
 	verifAssert(evm.depth == depth0, "C03: call depth back to rest")
 	verifAssert(env.interp.readOnly == ro0, "C03: static flag restored")
 	verifAssert(evm.tracer.callTree.current == cursor0, "C03: call-tree cursor back to rest")
-	verifAssert(contract.Gas <= gas, "C06: an instruction never creates gas")
+	if nested == 0 {
+		// (with a nested frame the statement needs the 63/64 arithmetic: it is C06's frame harness)
+		verifAssert(contract.Gas <= gas, "C06: an instruction never creates gas")
+	}
 
 	// ---- C20: work is bounded by a fixed multiple of the gas paid
 	used := gas - contract.Gas
-	if op < RSVJNAL || op > VRJNAL || nested > 0 {
-		verifAssert(verifWorkAlloc()-alloc0 <= 64*used+8192, "C20: bytes allocated bounded by gas paid")
+	if nested == 0 {
+		// (work done on behalf of a nested frame is paid for by that frame: outside this step's claim)
+		if op < RSVJNAL || op > VRJNAL {
+			verifAssert((verifWorkAlloc()-alloc0)/64 <= used+128, "C20: bytes allocated bounded by gas paid")
+		}
+		verifAssert(env.db.reads <= used/20+16, "C20: state reads bounded by gas paid")
 	}
-	verifAssert(env.db.reads <= used/20+16, "C20: state reads bounded by gas paid")
 
 	// ---- C12: the journal instructions cost the same flat fee whatever the operands
 	if op >= RSVJNAL && op <= VRJNAL {
